@@ -22,7 +22,7 @@
 (* happened).                                                              *)
 (* DIAGNOSTIC (steps 1..n+1): the tokenizer/builder automaton is replayed  *)
 (* over the class sequence with the actions of ReproTokenizer and must     *)
-(* produce the observed token kinds (checked as a prefix after every line) *)
+(* produce the observed token kinds (checked line by line)               *)
 (* and finally the observed part list; <<"AT", tid, l>> marks progress, a  *)
 (* document explained completely reaches l = n + 1.  A document that is    *)
 (* ACCEPTED but not explained is specification drift, not a violation.     *)
@@ -71,11 +71,12 @@ TVerdict == /\ l = 0
                ELSE l' = 1
             /\ UNCHANGED <<vars, tid>>
 
-KindsPrefix(ts, K) == \A j \in 1..Len(ts) : j <= Len(K) /\ KindCode(ts[j].k) = K[j]
+\* the tokens added by the step (from index `from` on) have the observed kinds
+KindsFrom(ts, K, from) == \A j \in from..Len(ts) : j <= Len(K) /\ KindCode(ts[j].k) = K[j]
 
 TLine == /\ 1 <= l /\ l <= NL
          /\ \E j \in 1..Len(Tr.lines[l].cls) : Step(Tr.lines[l].cls[j], Terminated(Tr.lines[l].t))
-         /\ KindsPrefix(toks', Tr.kinds)
+         /\ KindsFrom(toks', Tr.kinds, Len(toks) + 1)
          /\ PrintT(<<"AT", tid, l>>)
          /\ l' = l + 1 /\ UNCHANGED tid
 
